@@ -6,6 +6,7 @@
 #include "../engine/report.hpp"
 #include <half.h>
 #include <immintrin.h>
+#include <cpuid.h>
 
 using namespace vf;
 using IMATH_NAMESPACE::half;
@@ -28,7 +29,9 @@ int main (int argc, char** argv)
 {
     R ().property = "C01";
     R ().parse (argc, argv);
-    const bool have_f16c = __builtin_cpu_supports ("f16c");
+    // CPUID.1:ECX bit 29 = F16C, bit 28 = AVX, bit 27 = OSXSAVE (clang 14 has no __builtin_cpu_supports("f16c"))
+    unsigned ra = 0, rb = 0, rc = 0, rd = 0;
+    const bool have_f16c = __get_cpuid (1, &ra, &rb, &rc, &rd) && ((rc >> 29) & 1) && ((rc >> 28) & 1) && ((rc >> 27) & 1);
     R ().note ("f16c_hardware_oracle", have_f16c ? "yes" : "no (CPU lacks F16C)");
 
     // ---- stage 0: self-check of the oracle: fast arithmetic model == search model on the
